@@ -9,15 +9,18 @@
    113 a delivered transaction is delivered again as new after the restart
    121 a transaction already reported safe is reported safe again
    153 its later confirmation is not an update carrying the proof
-   171 the stored copy of a delivered transaction cannot be fetched back by txid *)
+   171 the stored copy of a delivered transaction cannot be fetched back by txid
+   101 / 102 / 103 / 123 the flags did not survive: after the restart a transaction is reported safe although it
+       was reported unsafe / cancelled before, or although a conflicting transaction is known (safe and unsafe
+       both set, cancelled without unsafe included) *)
 From V.lib Require Import Base.
 From V.model Require Import MemPool TxFlow TxFlowSpec.
 From V.proofs Require Import TxFlow_Proofs.
 
 Theorem C11_txflow :
   forall (delay : Z) (ops : list op),
-    flow_valid delay ops = true -> never_objects delay [113; 121; 153; 171] ops.
-Proof. exact (txflow_never_objects_C11). Qed.
+    flow_valid delay ops = true -> never_objects delay [101; 102; 103; 113; 121; 123; 153; 171] ops.
+Proof. exact (txflow_never_objects_any [101; 102; 103; 113; 121; 123; 153; 171]). Qed.
 Print Assumptions C11_txflow.
 
 (* Non-vacuity: a valid history with a three-way conflict, a safe report, a confirmation that
